@@ -13,7 +13,9 @@
 (*      C09 (the observation equals the one made on an isolated twin in    *)
 (*      which no other File exists), C10 (a failed render writes nothing), *)
 (*      C02 (nil => parses; never a panic), C03 / C05 / C06 on the         *)
-(*      projected import block and references.  (C04 speaks about a        *)
+(*      projected import block and references, C15 (file level) and C19    *)
+(*      (preamble placement) after front-matter calls made at any point of *)
+(*      the behaviour.  (C04 speaks about a                                *)
 (*      freshly built File and is not monitored here: a fragment render    *)
 (*      that fails to format still registers its paths.)                   *)
 (***************************************************************************)
@@ -47,7 +49,7 @@ FilesEv ==
   /\ Consume("Files") /\ tid' = E.trace
   /\ cells' = <<>> /\ ntok' = 0 /\ obs' = NoObs /\ nops' = 0 /\ hist' = <<>>
   /\ files' = [i \in DOMAIN E.files |-> [local |-> E.files[i].local, prefix |-> E.files[i].prefix, noformat |-> E.files[i].noformat,
-                                           hints |-> <<>>, imps |-> <<>>, body |-> <<>>, anons |-> {}, claims |-> <<>>]]
+                                           hints |-> <<>>, imps |-> <<>>, body |-> <<>>, anons |-> {}, claims |-> <<>>, fm |-> NoFM]]
   /\ bound' = [i \in DOMAIN E.files |-> <<>>]
   /\ clean' = [i \in DOMAIN E.files |-> ""] /\ lastfrag' = <<>> /\ lastplain' = <<>>
 
@@ -76,6 +78,10 @@ FileEv ==
      \/ E.ev = "ImportName" /\ DoImportName(E.f, E.p, E.n)
      \/ E.ev = "ImportAlias" /\ ImportAlias(E.f, E.p, E.n)
      \/ E.ev = "Anon" /\ DoAnon(E.f, E.p)
+     \/ E.ev = "Header" /\ FileHeader(E.f, CmtS(E.n, E.p))
+     \/ E.ev = "PkgComment" /\ FilePkgComment(E.f, CmtS(E.n, E.p))
+     \/ E.ev = "Preamble" /\ FilePreamble(E.f, CmtS(E.n, E.p))
+     \/ E.ev = "Canonical" /\ FileCanonical(E.f, E.p)
   /\ Dirty(IF \E x \in DOMAIN files : \E i \in DOMAIN files[x].body : files[x].body[i] < 0 THEN AllFiles ELSE {E.f})
                            \* a call on one File says nothing about the others (C09) - unless Files have been added to Files
   /\ UNCHANGED lastplain    \* ... nor about Render / GoString, which use a File of their own
@@ -103,7 +109,7 @@ MonCommon(f, refs, bare) ==
   /\ \A r \in refs : (files[f].local # "" /\ r.path = files[f].local) => Report("C06", "system: " \o r.path)
   /\ \A r1, r2 \in refs : (r1.path = r2.path /\ r1.qual # r2.qual) => Report("C03", "system: " \o r1.path)
 MonFile(f, specs, refs, bare) ==
-  LET Real(p) == Find2(files[f].claims, p) \cup (IF TPathInfo[p].real # "" THEN {TPathInfo[p].real} ELSE {})
+  LET Real(p) == Find2(files[f].claims, p) \cup (IF p \in DOMAIN TPathInfo /\ TPathInfo[p].real # "" THEN {TPathInfo[p].real} ELSE {})
       Prov(s, q) == IF s.name # "" THEN s.name = q ELSE q \in Real(s.path)
   IN
   /\ \A r \in refs : (~ \E s \in specs : s.path = r.path /\ s.name \notin {"_", "."} /\ Prov(s, r.qual)) => Report("C03", "system: " \o r.path)
@@ -113,6 +119,15 @@ MonFile(f, specs, refs, bare) ==
   /\ \A s \in specs : ~s.legal => Report("C05", "system: " \o s.name)
   /\ \A s \in specs : (files[f].local # "" /\ s.path = files[f].local) => Report("C06", "system: " \o s.path)
   /\ \A p \in bare : (p # files[f].local /\ ~ \E s \in specs : s.path = p /\ s.name = ".") => Report("C06", "system: " \o p)
+  \* C19: a preamble, whenever it was given, puts import "C" in a declaration of its own with the preamble as its doc comment
+  /\ \A s \in specs : (s.path = "C" /\ s.name # "") => Report("C19", "system: " \o s.name)
+  /\ (Len(files[f].fm.preamble) > 0 /\ ~ \E s \in specs : s.path = "C") => Report("C19", "system: no import C")
+  /\ \A s, o \in specs : (s.path = "C" /\ Len(files[f].fm.preamble) > 0 /\ o.path # "C" /\ o.decl = s.decl) => Report("C19", "system: not separate")
+  /\ \A s \in specs : (E.docsok /\ s.path = "C" /\ Len(files[f].fm.preamble) > 0 /\ s.doc # E.predoc) => Report("C19", "system: preamble")
+  \* C15 at file level, whenever the calls were made (facts measured on the output by go/parser)
+  /\ (E.c15f.on /\ ~E.c15f.docok) => Report("C15", "system: package comments are not exactly the package doc")
+  /\ (E.c15f.on /\ ~E.c15f.headok) => Report("C15", "system: header comment lost or part of the package doc")
+  /\ (E.c15f.on /\ ~E.c15f.canonok) => Report("C15", "system: canonical import path annotation")
   /\ \A p \in DOMAIN bound[f] : (bound[f][p] # "" /\ ~ \E s \in specs : s.path = p /\ s.name \notin {"_", "."} /\ Prov(s, bound[f][p]))
                                   => Report("C08", "system: undeclared " \o p)
 
@@ -121,7 +136,7 @@ Resync(f, t) == files' = [files EXCEPT ![f].imps = t]
 RenderEv ==
   /\ Consume("Render") /\ UNCHANGED tid
   /\ LET f == E.f
-         r == RenderFile(CfgOf(f), FC, BodyTrees(f), files[f].imps, Sorted)
+         r == RenderFile(CfgOf(f), FCOf(f), BodyTrees(f), files[f].imps, Sorted)
          refs == SeqSet(E.prefs)  bare == SeqSet(E.bare)  specs == SeqSet(E.specs)
          obsT == TableFn(E.table)
      IN /\ (E.israw /\ Flat(r[1]) # E.raw) => Report("DRIFT", "raw")
